@@ -235,7 +235,7 @@ func proveCursorInvariant(c *Ctx, fi *FuncInfo, modInput map[*types.Func]bool) l
 				return
 			}
 			if r, ok := n.(*ast.ReturnStmt); ok {
-				if msg := a.checkInv(st); msg != "" && !errorReturn(info, fi, r) {
+				if msg := a.checkInv(st); msg != "" && !(errorReturn(info, fi, r) && errorsAlwaysPropagated(c, fi)) {
 					v.refuted = fmt.Sprintf("at the return at %s: %s (path: %s)", c.pos(r.Pos()), msg, strings.Join(st.trace, "; "))
 				}
 				return
@@ -653,4 +653,67 @@ func rhsOf(x *ast.AssignStmt, i int) ast.Expr {
 		return x.Rhs[i]
 	}
 	return x.Rhs[0]
+}
+
+// errorsAlwaysPropagated: every call site of the method (in its package)
+// returns the error it got without touching the scanner again, so the state of
+// the cursors after an error return is never observed. A caller that tests
+// `err == nil` and carries on when it is not (stmt() does that for the
+// skipBegin* family: "not a BEGIN block") makes the error return an ordinary
+// exit, and the invariant must hold there too.
+func errorsAlwaysPropagated(c *Ctx, fi *FuncInfo) bool {
+	ok := true
+	c.AllFuncs(false, func(g *FuncInfo) {
+		if g.Pkg != fi.Pkg || !ok {
+			return
+		}
+		info := g.Info()
+		pm := parentMap(g.Decl.Body)
+		ast.Inspect(g.Decl.Body, func(m ast.Node) bool {
+			call, isCall := m.(*ast.CallExpr)
+			if !isCall || calleeOf(info, call) != fi.Obj {
+				return true
+			}
+			// accepted call shapes: `return f()`, `if err := f(); err != nil { return …err… }`, `x, err := f(); if err != nil { return … }`
+			switch p := pm[call].(type) {
+			case *ast.ReturnStmt:
+				return true
+			case *ast.AssignStmt:
+				// find the if that tests the error right where it is assigned or in the next statement
+				var cond *ast.IfStmt
+				if ifs, isIf := pm[p].(*ast.IfStmt); isIf && ifs.Init == ast.Stmt(p) {
+					cond = ifs
+				} else if blk, isBlk := pm[p].(*ast.BlockStmt); isBlk {
+					for i, st := range blk.List {
+						if st == ast.Stmt(p) && i+1 < len(blk.List) {
+							cond, _ = blk.List[i+1].(*ast.IfStmt)
+						}
+					}
+				} else if cc, isCC := pm[p].(*ast.CaseClause); isCC {
+					for i, st := range cc.Body {
+						if st == ast.Stmt(p) && i+1 < len(cc.Body) {
+							cond, _ = cc.Body[i+1].(*ast.IfStmt)
+						}
+					}
+				}
+				if cond == nil {
+					ok = false
+					return true
+				}
+				be, isBin := ast.Unparen(cond.Cond).(*ast.BinaryExpr)
+				if !isBin || be.Op != token.NEQ || !isNilIdent(info, be.Y) {
+					ok = false // `err == nil { … }` and anything else: execution continues after an error
+					return true
+				}
+				last := cond.Body.List[len(cond.Body.List)-1]
+				if _, isRet := last.(*ast.ReturnStmt); !isRet {
+					ok = false
+				}
+			default:
+				ok = false
+			}
+			return true
+		})
+	})
+	return ok
 }
